@@ -99,6 +99,8 @@ struct InterpreterEnv : public ScriptExecutionEnvironment {
 
     // Executed sigScript support (archaeology)
     CScript successor_script;
+    bool sigscript_executed{false};   ///< the script before successor_script was a scriptSig ...
+    bool sigscript_pushonly{true};    ///< ... and this is whether it consisted of push operations only
 
     // Taproot/tapscript support
     TaprootCommitmentEnv* tce;
